@@ -3,6 +3,8 @@ package main
 // C05 — Stop/Destroy terminates and flushes everything accepted before it; no descriptor leaks.
 
 import (
+	"syscall"
+	"io"
 	"bytes"
 	"context"
 	"fmt"
@@ -770,6 +772,66 @@ func c05Worker(w *W) {
 					}
 				}
 			}
+		}
+		// a target on which fsync fails (a named pipe, as with 'app.log -> /dev/stdout' links in containers): Stop must still
+		// release the descriptor - the reader at the other end sees end-of-file
+		for _, mkAp := range []func(string) log.Appender{
+			func(d string) log.Appender {
+				return &log.FileAppender{Layout: &log.TextLayout{}, FileDir: d, FileName: "pipe.log"}
+			},
+			func(d string) log.Appender {
+				return &log.FileLogger{LoggerBase: log.LoggerBase{Name: "fl", Level: log.LevelRange{MinLevel: log.NoneLevel, MaxLevel: log.MaxLevel}}, FileAppender: log.FileAppender{Layout: &log.TextLayout{}, FileDir: d, FileName: "pipe.log"}}
+			},
+		} {
+			pdir := filepath.Join(dir, "fifo")
+			_ = os.RemoveAll(pdir)
+			_ = os.MkdirAll(pdir, 0755)
+			fp := filepath.Join(pdir, "pipe.log")
+			cs := map[string]any{"scenario": "file appender whose target is a named pipe (fsync fails there)"}
+			if err := syscall.Mkfifo(fp, 0644); err != nil {
+				w.Note("mkfifo: " + err.Error())
+				break
+			}
+			eof := make(chan []byte, 1)
+			go func() {
+				f, err := os.OpenFile(fp, os.O_RDONLY, 0)
+				if err != nil {
+					eof <- nil
+					return
+				}
+				b, _ := io.ReadAll(f)
+				f.Close()
+				eof <- b
+			}()
+			a := mkAp(pdir)
+			if err := a.Start(); err != nil {
+				w.Note("fifo appender start: " + err.Error())
+				break
+			}
+			a.Write([]byte("id-fifo1-1 through the pipe\n"))
+			a.Stop()
+			w.Eval(1)
+			fds := fdsInto(pdir)
+			select {
+			case b := <-eof:
+				if len(fds) != 0 {
+					w.Violate("C05:fd-leak:File", fmt.Sprintf("descriptors open after Stop of an appender writing to a named pipe: %v", fds), cs)
+				} else if !bytes.Contains(b, []byte("id-fifo1-1")) {
+					w.Violate("C05:fd-leak:File", "the line written before Stop did not reach the pipe reader", cs)
+				} else {
+					w.Distinct("fifo-target")
+				}
+			case <-time.After(10 * time.Second):
+				if len(fds) != 0 {
+					w.Violate("C05:fd-leak:File", fmt.Sprintf("Stop returned, but the process still holds %v (the target is a named pipe, on which fsync fails): its reader never sees end-of-file", fds), cs)
+				} else {
+					w.Inconclusive("fifo scenario: no descriptor listed, yet the reader saw no end-of-file")
+				}
+				if f, err := os.OpenFile(fp, os.O_WRONLY|syscall.O_NONBLOCK, 0); err == nil {
+					f.Close() // let the reader goroutine finish
+				}
+			}
+			_ = os.RemoveAll(pdir)
 		}
 		// several lives of one RollingFileLogger object (sync and async, with and without a separate .wf file): every Stop
 		// flushes what that life accepted and releases its descriptors
